@@ -93,6 +93,10 @@ def _map_query_error(error: duckdb.Error, sql_query: str) -> Exception:
         op = "daytoyear" if "daytoyear" in msg_lower else "daytomonth"
         return RunTimeError("2-1-19-16", op=op)
 
+    # SDMX Gregorian output format cannot express S, Q or W periods (check before 2-1-19-1 prefix)
+    if "vtl error 2-1-19-21" in msg_lower:
+        return RunTimeError("2-1-19-21", period=msg.rsplit("got ", 1)[-1].strip())
+
     # time_agg: period indicator too coarse for target
     if "vtl error 2-1-19-1" in msg_lower:
         return _map_time_agg_error(msg, msg_lower)
@@ -413,9 +417,15 @@ def fetch_result(
     """
     _verif.event("fetch", result_name, str(output_folder) if output_folder else None)
     # Apply time period representation before saving/fetching
-    apply_time_period_representation(
-        conn, result_name, output_datasets, output_scalars, representation
-    )
+    try:
+        apply_time_period_representation(
+            conn, result_name, output_datasets, output_scalars, representation
+        )
+    except duckdb.Error as e:
+        mapped = _map_query_error(e, result_name)
+        if mapped is not e:
+            raise mapped from e
+        raise
 
     # Scalars are always fetched in-memory (never saved to CSV)
     if result_name in output_scalars:
